@@ -686,8 +686,43 @@ class A2(nn.Module):
         return self.fc(torch.relu(self.a(x)).flatten(1) + torch.relu(self.b(x)).flatten(1))
 
 
-FAMILIES.update({'O1': O1, 'W2': W2, 'Z1': Z1, 'A2': A2})
-_SHAPES.update({'A2': lambda s: (s.get('cin', 1), s.get('T', 2)) if s.get('nd', 1) == 1 else (s.get('cin', 1), s.get('T', 2), s.get('T', 2)), 'Z1': lambda s: (s.get('cin', 1), s.get('HW', 2)) if s.get('nd', 2) == 1 else (s.get('cin', 1), s.get('HW', 2), s.get('HW', 2)), 'O1': lambda s: (s.get('cin', 1), 2), 'W2': lambda s: (s.get('cin', 1), 2) if s.get('nd', 1) == 1 else (s.get('cin', 1), 2, 2)})
+class Q2(nn.Module):
+    """Conv2d on (N, cin, T, 1) -> ReLU -> squeeze of the trailing unit dimension (dim written as -1 or 3) -> Conv1d -> Conv1d:
+    the squeeze removes no features, the consumer sees the producer's alive channels"""
+
+    def __init__(self, C=2, cin=1, T=2, dim=-1):
+        super().__init__()
+        self.dim = dim
+        self.c0 = nn.Conv2d(cin, C, 1)
+        self.c1 = nn.Conv1d(C, C, 1)
+        self.o = nn.Conv1d(C, 2, 1)
+
+    def forward(self, x):
+        y = torch.relu(self.c0(x)).squeeze(self.dim)
+        return self.o(torch.relu(self.c1(y)))
+
+
+class K4(nn.Module):
+    """channel concat of several VIEWS of the same producer (through different element-wise ops) and of the input: every view contributes its
+    alive features to the consumer"""
+
+    def __init__(self, C=2, cin=1):
+        super().__init__()
+        self.inp = nn.Identity()
+        self.c0 = nn.Conv1d(cin, C, 1)
+        self.mp = nn.MaxPool1d(1)
+        self.ap = nn.AvgPool1d(1)
+        self.cons = nn.Conv1d(cin + 2 * C, C, 1)
+        self.o = nn.Conv1d(C, 2, 1)
+
+    def forward(self, x):
+        y = torch.relu(self.c0(x))
+        z = torch.cat([self.inp(x), self.mp(y), self.ap(y)], dim=1)
+        return self.o(torch.relu(self.cons(z)))
+
+
+FAMILIES.update({'O1': O1, 'W2': W2, 'Z1': Z1, 'A2': A2, 'Q2': Q2, 'K4': K4})
+_SHAPES.update({'Q2': lambda s: (s.get('cin', 1), s.get('T', 2), 1), 'K4': lambda s: (s.get('cin', 1), 2), 'A2': lambda s: (s.get('cin', 1), s.get('T', 2)) if s.get('nd', 1) == 1 else (s.get('cin', 1), s.get('T', 2), s.get('T', 2)), 'Z1': lambda s: (s.get('cin', 1), s.get('HW', 2)) if s.get('nd', 2) == 1 else (s.get('cin', 1), s.get('HW', 2), s.get('HW', 2)), 'O1': lambda s: (s.get('cin', 1), 2), 'W2': lambda s: (s.get('cin', 1), 2) if s.get('nd', 1) == 1 else (s.get('cin', 1), 2, 2)})
 
 
 def flat_outputs(y):
